@@ -28,6 +28,14 @@ def gen_cases(seed, tier, n):
         else:
             b = tracegen.gen_case(seed, 2 * i + 1, tracegen.PROFILES["diff"])
         a["params"] = {"pseed": rng.randint(0, 10 ** 9), "self": i % 6 == 5}
+        if i % 4 == 2:
+            # full names that share a short name (template arguments, parameter lists): with use_short_name they are ONE row
+            FAM = ["gemm<float>", "gemm<double>", "gemm<int>", "helper(int)", "helper(float)", "void at::kern<int>(float*)", "void at::kern<long>(float*)"]
+            for tr_ in (a, b):
+                for rk in tr_["ranks"].values():
+                    for e in rk["events"]:
+                        if e.get("cat") in ("cpu_op", "kernel") and rng.random() < 0.4:
+                            e["name"] = rng.choice(FAM)
         if i % 8 == 6:
             fw.set_quarter_us(a)           # quarter-microsecond resolution (framework.resolution), both traces
             fw.set_quarter_us(b)
